@@ -78,6 +78,12 @@ def RState.info? (s : RState) (root id : NodeId) : Option Info :=
   | some d => if d.known.contains id then lookupNat id s.infos else none
   | none => none
 
+/-- `rs.draft` of the Resolved rooted at `root` (2020-12, the default, when there is no such Resolved) -/
+def RState.draftOf (s : RState) (root : NodeId) : Draft :=
+  match s.doc? root with
+  | some d => d.draft
+  | none => .d2020
+
 def RState.updInfo (s : RState) (id : NodeId) (f : Info → Info) : RState :=
   match lookupNat id s.infos with
   | some i => { s with infos := setNat id (f i) s.infos }
@@ -264,7 +270,8 @@ def resolveRefsLoop (env : Env) (recDoc : ResolveDoc) (root : NodeId) : List Nod
         else .ok s
       Res.bind r1 fun s =>
         let r2 : Res RState :=
-          if n.dynamicRef != "" then
+          -- $dynamicRef is an unknown keyword in a draft-07 document (`rs.draft`): left unresolved there
+          if n.dynamicRef != "" && s.draftOf root == .d2020 then
             Res.bind (resolveRef env recDoc root s id n.dynamicRef) fun (o, s) =>
               -- the initial (lexical) target is always remembered; the anchor name only when the
               -- target anchor is dynamic, in which case validation searches the dynamic scope first
